@@ -19,6 +19,8 @@ Full statement / proved / missing
                          iface-float-width; each exclusion has a negation witness below.
 * `C18_type_accepts`   — PROVED likewise under `TaOK`, which excludes exactly uint64-overflow, float-inf-rejected,
                          bytes-become-binary, nil-slice-becomes-undef-rejected, nil-map-becomes-undef-rejected; witnesses below.
+* `C18_roundtrip_iff`, `C18_type_accepts_iff` — the exclusions are exact: on modelled types and well-typed values the
+                         round trip succeeds IFF `RtOK`, the derived type accepts IFF `TaOK`.
 * `C18_roundtrip_unsigned_wraps` — values ≥ 2^63 DO round-trip although their wrapped form is negative.
 * `C18_int_width`, `C18_uint_width` — the arithmetic core: `SetInt`/`SetUint` truncation is the identity on the
   width's range, also after the `int64(uint64)` wrap-around.
@@ -60,6 +62,18 @@ theorem C18_type_accepts (ty : GoTy) (v : GoVal)
     (hm : Modelled ty = true) (h : hasType ty v = true) (hs : TaOK true ty v = true) :
     inst (typeOf ty) (wrap true ty v) = true :=
   ta_main ty true v hm h hs
+
+/-- `RtOK` excludes EXACTLY the failing shapes: for a modelled type and a well-typed value the round trip reproduces the
+    value if and only if `RtOK` holds (at every nesting depth, not only for the listed witnesses) -/
+theorem C18_roundtrip_iff (r32 : Nat → Nat) (hr : R32Exact r32) (ty : GoTy) (v : GoVal)
+    (hm : Modelled ty = true) (h : hasType ty v = true) :
+    reflectTo r32 ty (wrap true ty v) = some v ↔ RtOK true ty v = true :=
+  ⟨rt_conv r32 hr ty true v hm h, rt_main r32 hr ty true v hm h⟩
+
+/-- `TaOK` excludes EXACTLY the rejected shapes -/
+theorem C18_type_accepts_iff (ty : GoTy) (v : GoVal) (hm : Modelled ty = true) (h : hasType ty v = true) :
+    inst (typeOf ty) (wrap true ty v) = true ↔ TaOK true ty v = true :=
+  ⟨ta_conv ty true v hm h, ta_main ty true v hm h⟩
 
 /-- `Supported` of DESIGN.md §4: both halves at once -/
 def Supported (ty : GoTy) (v : GoVal) : Bool := RtOK true ty v && TaOK true ty v
